@@ -186,8 +186,11 @@ pub fn run_case(c: &Case) -> Result<Vec<(String, String, String)>, String> {
                             // a reclaiming snapshot on the primary after the remove drops the tombstone, the only
                             // thing a full sync could have told the joiner about
                             let all: Vec<&Op> = c.before.iter().chain(c.away.iter()).collect();
-                            let last_rm = all.iter().rposition(|o| matches!(o, Op::Remove(d, kk) if *d == db.as_str() && *kk == k.as_str()));
-                            let reclaimed = last_rm.map(|i| all[i + 1..].iter().any(|o| matches!(o, Op::SnapshotReclaim(d) if *d == db.as_str()))).unwrap_or(false);
+                            // the remove that made the key absent: the first one after the key was last written
+                            let last_write = all.iter().rposition(|o| matches!(o, Op::Set(d, kk, _) | Op::Inc(d, kk) if *d == db.as_str() && *kk == k.as_str()));
+                            let from = last_write.map(|i| i + 1).unwrap_or(0);
+                            let first_rm = all[from..].iter().position(|o| matches!(o, Op::Remove(d, kk) if *d == db.as_str() && *kk == k.as_str())).map(|i| i + from);
+                            let reclaimed = first_rm.map(|i| all[i + 1..].iter().any(|o| matches!(o, Op::SnapshotReclaim(d) if *d == db.as_str()))).unwrap_or(false);
                             out.push(("removed-key-still-on-joiner".to_string(), format!("removed key ({}{})", provenance(c, db, k), if reclaimed { ", tombstone reclaimed on the primary" } else { "" }), format!("{}.{} was removed on the primary, the joiner still has {:?}", db, k, jv)));
                         }
                     }
